@@ -505,6 +505,11 @@ pub fn corpus(world: &World, v: ProtocolVersion, rng: &mut SimRng) -> Vec<WireMs
 	let nloc = rng.range(0, 20) as usize;
 	let hashes: Vec<Hash> = (0..nloc).map(|i| world.blocks[i % n].hash).collect();
 	out.push(wm(Type::GetHeaders, "getheaders", &Locator { hashes }, v));
+	// the largest lists the protocol allows (what a node on a tall chain / with many peers sends)
+	let hashes: Vec<Hash> = (0..20).map(|i| world.blocks[i % n].hash).collect();
+	out.push(wm(Type::GetHeaders, "getheaders", &Locator { hashes }, v));
+	let peers: Vec<PeerAddr> = (0..256usize).map(|i| PeerAddr(format!("10.{}.{}.{}:{}", i / 200, i % 200, (i * 7) % 250, 3414 + (i % 100)).parse().unwrap())).collect();
+	out.push(wm(Type::PeerAddrs, "peeraddrs", &PeerAddrs { peers }, v));
 	out.push(wm(Type::GetPeerAddrs, "getpeeraddrs", &GetPeerAddrs { capabilities: Capabilities::default() }, v));
 	let np = rng.range(0, 12) as usize;
 	let peers: Vec<PeerAddr> = (0..np)
@@ -1307,6 +1312,16 @@ pub fn c11_case(tier: &str, seed: u64, case: u64) -> CaseResult {
 					let mut be = [0u8; 8];
 					be[8 - w..].copy_from_slice(&base[off..off + w]);
 					let cur = u64::from_be_bytes(be);
+					if w == 8 && cur > 64 && cur <= 8192 {
+						// looks like a byte-length prefix (e.g. 675 for a range proof): announce a little
+						// more than is there, with the bytes to satisfy it following in the stream
+						for val in [cur + 1, cur + 101] {
+							let mut f = base.clone();
+							f[off..off + 8].copy_from_slice(&val.to_be_bytes());
+							priority.push((format!("length64@{}={}", off, val), f));
+						}
+						continue;
+					}
 					if cur == 0 || cur > 64 {
 						continue;
 					}
@@ -1330,9 +1345,9 @@ pub fn c11_case(tier: &str, seed: u64, case: u64) -> CaseResult {
 					priority.push((format!("count{}@{}={}+truncate", w * 8, off, val), f));
 				}
 			}
-			if priority.len() > 60 {
+			if priority.len() > 80 {
 				rng.shuffle(&mut priority);
-				priority.truncate(60);
+				priority.truncate(80);
 			}
 			// tag / feature bytes swept
 			for off in 11..(11 + body_len.min(24)) {
@@ -1382,7 +1397,7 @@ pub fn c11_case(tier: &str, seed: u64, case: u64) -> CaseResult {
 				res.runs += 1;
 				res.steps += 1;
 				let kind = what.split('@').next().unwrap_or("").split('[').next().unwrap_or("").split('=').next().unwrap_or("").to_string();
-				if !kind.starts_with("count") {
+				if !kind.starts_with("count") && !kind.starts_with("length") {
 					res.fault(&format!("mutation:{}", kind));
 				}
 				res.run_digests.push((fnv64(&f), true));
